@@ -374,7 +374,31 @@ func stratum(in *Instance) string {
 	if len(in.Sel) > 0 {
 		sel = "some"
 	}
-	return fmt.Sprintf("%v/%s/files=%d", k, sel, len(in.Files))
+	// a case declared inside an outer suite AFTER a nested suite has ended: state written while the
+	// nested suite was open must not leak into it (own stratum, so that the sample always has some)
+	tail := 0
+	for _, toks := range in.Files {
+		depth, closedNested := 0, false
+		for _, t := range toks {
+			switch t {
+			case "D":
+				depth++
+			case "E":
+				if depth >= 2 {
+					closedNested = true
+				}
+				if depth == 1 {
+					closedNested = false
+				}
+				depth--
+			case "C":
+				if depth >= 1 && closedNested {
+					tail = 1
+				}
+			}
+		}
+	}
+	return fmt.Sprintf("%v/%s/files=%d/tail=%d", k, sel, len(in.Files), tail)
 }
 
 // suiteStartsAt reports whether the path filter's line is the first line of a suite, and if so
